@@ -3775,7 +3775,33 @@ def plain_column_projection(expr, parent, dependents, additional_columns=None):
     return type(parent)(result, parent.operand("columns"))
 
 
+def _is_order_independent(predicate, frame):
+    """Whether ``predicate`` (computed from ``frame``) is the same for every row
+    whatever the order and partitioning of the rows of ``frame``"""
+    stack, seen = [predicate], set()
+    while stack:
+        e = stack.pop()
+        if e._name == frame._name or e._name in seen:
+            continue
+        seen.add(e._name)
+        if isinstance(e, MapOverlap) or not isinstance(
+            e, (Blockwise, Literal, ApplyConcatApply, TreeReduce, ShuffleReduce)
+        ):
+            # cumulative and window operations, head/tail, ...
+            return False
+        stack.extend(e.dependencies())
+    return True
+
+
 def is_filter_pushdown_available(expr, parent, dependents, allow_reduction=True):
+    from dask_expr._shuffle import BaseSetIndexSortValues, ShuffleBase
+
+    if isinstance(
+        expr, (ShuffleBase, BaseSetIndexSortValues)
+    ) and not _is_order_independent(parent.predicate, expr):
+        # Below an operation that reorders the rows the predicate would be
+        # evaluated on a different row order
+        return False
     parents = [x() for x in dependents[expr._name] if x() is not None]
     filters = {e._name for e in parents if isinstance(e, Filter)}
     if len(filters) != 1:
